@@ -335,8 +335,12 @@ def _extract_attributes(element):
     attributes = []
     for subel in element:
         sqname = etree.QName(subel)
+        # an element in the default namespace has no prefix
         _t = xml_qname_to_QualifiedName(
-            subel, "%s:%s" % (subel.prefix, sqname.localname)
+            subel,
+            "%s:%s" % (subel.prefix, sqname.localname)
+            if subel.prefix
+            else sqname.localname,
         )
 
         for key, value in subel.attrib.items():
